@@ -60,7 +60,8 @@ txn_st = st.fixed_dictionaries({
     'loc': st.one_of(st.none(), st.sampled_from(['WA', '</script>'])),
 })
 case_st = st.fixed_dictionaries({'txns': st.lists(txn_st, min_size=1, max_size=25), 'views': st.booleans(), 'currency': st.sampled_from(CURRENCIES),
-                                 'catnames': st.lists(text_st, min_size=4, max_size=4)})
+                                 # (category / subcategory names include the ones the report itself uses for unmatched or blank entries: they share a display slot)
+                                 'catnames': st.lists(st.one_of(text_st, text_st, st.sampled_from(['Unknown', 'Uncategorized', 'Other', 'Food', 'unknown'])), min_size=4, max_size=4)})
 
 
 def revive(v):
